@@ -436,12 +436,12 @@ theorem untainted_mask (p : Prog) (l : List ℕ) (α : ℕ → List Rat) (hok : 
 variable {V : Type} [AddCommMonoid V]
 
 /-- zero-preservation of the maps of a semantics, and input widths -/
-def SemOK (σ : Sem V) (inp : ℕ → List V) (x : Op × ℕ) : Prop :=
+def SemOK (σ : Sem V) (ms : List (List Bool)) (inp : ℕ → List V) (x : Op × ℕ) : Prop :=
   match x.1 with
   | .input c => (inp x.2).length = c
   | .conv .. => ∀ co ci, σ.L x.2 co ci 0 = 0
   | .lin .. => ∀ co ci, σ.L x.2 co ci 0 = 0
-  | .chan _ => σ.g x.2 0 = 0
+  | .chan s => ∀ c, (gm ms s).getD c true = false → σ.g x.2 c 0 = 0
   | .add .. => σ.g2 x.2 0 0 = 0
   | .tcat _ => σ.g2 x.2 0 0 = 0
   | .flat .. => ∀ q, σ.sp x.2 q 0 = 0
@@ -452,7 +452,7 @@ well-shaped program (exclusions included) whose labelling passes the certificate
 theorem coherent_of_bookkeeping (σ : Sem V) (inp : ℕ → List V) (p : Prog) (l : List ℕ)
     (α : ℕ → List Rat) (hl : computeLabels p = some l) (hws : wellShaped p = true)
     (hsup : supported p = true)
-    (hsem : ∀ n (hn : n < p.length), SemOK σ inp (p[n], n)) :
+    (hsem : ∀ n (hn : n < p.length), SemOK σ (aliveMasks p l α) inp (p[n], n)) :
     ∀ n (hn : n < p.length), Coherent σ (aliveMasks p l α) inp (p[n], n) := by
   have hok := labelsOK_of_compute p l hl
   have hsb := srcsBefore_of_wellShaped p hws
